@@ -1,8 +1,12 @@
 SPECIFICATION Spec
 CONSTANTS
   N = 3
-  DSNames = {"empty", "tiny", "tiny2", "basic", "wrap", "long", "role250", "meta", "hist", "delta"}
+  DSNames = {"empty", "tiny", "tiny2", "basic", "wrap", "long", "kids", "role250", "meta", "hist", "delta"}
   MaxExtra = 2
+  SkipSet = {"sync", "jump", "unknown", "unknown0", "unknownL", "byte"}
+  HdrSet = {"bbox", "filets"}
+  RefPolicy = "any"
+  BulkN = 5
   RoleLimit = 250
   ExportHist = FALSE
 INVARIANTS TypeOK TableAgree RegsAgree DecodedOK
